@@ -53,6 +53,19 @@ pub fn chain() -> Vec<MV> {
     ]
 }
 
+/// the bottom of the version order: the lowest version there is, its successor, other
+/// prereleases of 0.0.0, the release and what follows it
+pub fn zero_chain() -> Vec<MV> {
+    vec![
+        MV::new(0, 0, 0).with_pre(&["0"]),
+        MV::new(0, 0, 0).with_pre(&["0", "0"]),
+        MV::new(0, 0, 0).with_pre(&["0", "5"]),
+        MV::new(0, 0, 0).with_pre(&["a"]),
+        MV::new(0, 0, 0),
+        MV::new(0, 0, 1).with_pre(&["0"]),
+    ]
+}
+
 pub fn short_chain() -> Vec<MV> {
     vec![MV::new(1, 0, 0).with_pre(&["a"]), MV::new(1, 0, 0), MV::new(1, 0, 1)]
 }
